@@ -2,6 +2,7 @@ package compaction
 
 import (
 	"bytes"
+	"sync"
 	"time"
 )
 
@@ -15,6 +16,10 @@ type TombstoneTracker struct {
 
 	// Retention period for tombstones (after this time, they can be discarded)
 	retention time.Duration
+
+	// Protects the maps: deletes are tracked from every writer goroutine while
+	// the compaction worker reads and garbage-collects them
+	mu sync.RWMutex
 }
 
 // NewTombstoneTracker creates a new tombstone tracker
@@ -28,17 +33,26 @@ func NewTombstoneTracker(retentionPeriod time.Duration) *TombstoneTracker {
 
 // AddTombstone records a key deletion
 func (t *TombstoneTracker) AddTombstone(key []byte) {
+	t.mu.Lock()
+	defer t.mu.Unlock()
+
 	t.deletions[string(key)] = time.Now()
 }
 
 // ForcePreserveTombstone marks a tombstone to be preserved indefinitely
 // This is primarily used for testing purposes
 func (t *TombstoneTracker) ForcePreserveTombstone(key []byte) {
+	t.mu.Lock()
+	defer t.mu.Unlock()
+
 	t.preserveForever[string(key)] = true
 }
 
 // ShouldKeepTombstone checks if a tombstone should be preserved during compaction
 func (t *TombstoneTracker) ShouldKeepTombstone(key []byte) bool {
+	t.mu.RLock()
+	defer t.mu.RUnlock()
+
 	strKey := string(key)
 
 	// First check if this key is in the preserveForever map
@@ -58,6 +72,9 @@ func (t *TombstoneTracker) ShouldKeepTombstone(key []byte) bool {
 
 // CollectGarbage removes expired tombstone records
 func (t *TombstoneTracker) CollectGarbage() {
+	t.mu.Lock()
+	defer t.mu.Unlock()
+
 	now := time.Now()
 	for key, timestamp := range t.deletions {
 		if now.Sub(timestamp) > t.retention {
